@@ -185,11 +185,14 @@ def _run(pid, prop, tier, seed, replay, nshards, workdir, t0, only_gen):
         "violations": sum(v["count"] for k, v in alarms),
     }
     if not replay and not only_gen:
-        os.makedirs(os.path.join(HERE, "evidence"), exist_ok=True)
-        tmp = os.path.join(HERE, "evidence", ".%s.tmp" % pid)
+        # the tools that run a check against a patched scratch copy (tools/with_patch.sh, seed_eval.py, revert_check.sh) redirect
+        # the evidence so that /verif/evidence only ever describes runs against the repository itself
+        evdir = os.environ.get("TLV_EVIDENCE_DIR") or os.path.join(HERE, "evidence")
+        os.makedirs(evdir, exist_ok=True)
+        tmp = os.path.join(evdir, ".%s.tmp" % pid)
         with open(tmp, "w") as f:
             json.dump(ev, f, indent=1, sort_keys=True, default=str)
-        os.replace(tmp, os.path.join(HERE, "evidence", "%s.json" % pid))
+        os.replace(tmp, os.path.join(evdir, "%s.json" % pid))
 
     # ---- report -------------------------------------------------------------------------------
     print("[%s] tier=%s seed=%s repo=%s cases=%d/%d distinct_nontrivial=%d wall=%.1fs" % (
